@@ -1,6 +1,7 @@
 /- relic_driver: one operation per input line, one canonical result per output line -/
 import Relic.Driver.C12
 import Relic.Driver.PE
+import Relic.Driver.E2E
 import Relic.Driver.C20
 import Relic.Driver.C15
 import Relic.Driver.C06
@@ -19,6 +20,7 @@ def dispatch (line : String) : String :=
   match words line with
   | "C12" :: rest => Relic.Driver.C12.handle rest
   | "PE" :: rest => Relic.Driver.PE.handle rest
+  | "E2E" :: rest => Relic.Driver.E2E.handle rest
   | "C20" :: rest => Relic.Driver.C20.handle rest
   | "C15" :: rest => Relic.Driver.C15.handle rest
   | "C06" :: rest => Relic.Driver.C06.handle rest
